@@ -14,7 +14,7 @@ use crate::pygen::{self, PMode};
 use crate::rng::{Digest, Rng};
 use rustpython_ast::fold::{self, Fold};
 use rustpython_ast::{self as ast};
-use rustpython_parser::{parse, Mode};
+use rustpython_parser::{parse, parse_starts_at, Mode};
 use rustpython_parser_core::source_code::verif_hooks::{self, CallKind};
 use rustpython_parser_core::source_code::{LinearLocator, LocatedError, RandomLocator, SourceRange};
 use rustpython_parser_core::text_size::{TextRange, TextSize};
@@ -29,6 +29,10 @@ pub struct Case {
     /// for shrink candidates)
     pub expect_valid: bool,
     pub constructs: Vec<&'static str>,
+    /// the program is the suffix `source[start..]` of a larger text and is parsed with
+    /// `parse_starts_at(.., start)`: node ranges are offsets into the whole text, and the first
+    /// `locate` of the linear cursor has to cross everything in front of the program
+    pub start: usize,
 }
 
 macro_rules! counters {
@@ -57,6 +61,7 @@ counters!(
     locate_only_calls,
     fault_truncated,
     fault_chunk_deleted,
+    fault_parsed_from_an_offset,
     probe_bom_program,
     probe_crlf_program,
     probe_cr_program,
@@ -318,11 +323,30 @@ pub fn generate(seed: u64, config: u64, scale: u32) -> Case {
             source.replace_range(bs[i]..bs[j], "");
         }
     }
+    // fault (config 1): the program sits inside a larger text and is parsed from an offset
+    let mut start = 0usize;
+    if config == 1 && r.chance(1, 5) && !source.starts_with(model::BOM) {
+        let mut prefix = String::new();
+        if r.chance(1, 4) {
+            prefix.push(model::BOM);
+        }
+        let eols = ["\n", "\r\n", "\r"];
+        for _ in 0..r.range(1, 6) {
+            prefix.push_str(*r.pick(&["# header", "", "# é→😀 note", "x = 0", "\"\"\"doc\"\"\""]));
+            prefix.push_str(eols[r.below(3) as usize]);
+        }
+        if prog.mode == PMode::Expression && r.chance(1, 2) {
+            prefix.push_str("y = é + "); // an expression may start in the middle of a line
+        }
+        start = prefix.len();
+        source = prefix + &source;
+    }
     Case {
         source,
         mode: prog.mode,
         expect_valid,
         constructs: prog.constructs,
+        start,
     }
 }
 
@@ -447,6 +471,7 @@ fn execute_inner(case: &Case, stats: &mut Stats, non_extent: &mut Option<(usize,
     let mut dg = Digest::default();
     dg.str(src);
     dg.byte(case.mode as u8);
+    dg.word(case.start as u64);
     let done = |dg: Digest, steps: u64, violation: Option<Violation>| Outcome {
         digest: dg.0,
         steps,
@@ -454,7 +479,17 @@ fn execute_inner(case: &Case, stats: &mut Stats, non_extent: &mut Option<(usize,
         harness_error: None,
     };
     let has_bom = src.starts_with(model::BOM);
-    let parsed = guarded(|| parse(src, to_mode(case.mode), "<sim>"));
+    let start = if case.start <= src.len() && src.is_char_boundary(case.start) { case.start } else { 0 };
+    if start > 0 {
+        stats.bump(C::fault_parsed_from_an_offset as usize);
+    }
+    let parsed = guarded(|| {
+        if start == 0 {
+            parse(src, to_mode(case.mode), "<sim>")
+        } else {
+            parse_starts_at(&src[start..], to_mode(case.mode), "<sim>", TextSize::new(start as u32))
+        }
+    });
     let parsed = match parsed {
         Ok(p) => p,
         Err(_) => {
@@ -801,11 +836,43 @@ fn split_keep_eol(s: &str) -> Vec<String> {
 
 pub fn shrink(case: &Case) -> Vec<Case> {
     let mut out = Vec::new();
+    if case.start > 0 {
+        // drop the prefix altogether, or shrink the prefix only (whole lines), first
+        let (prefix, prog) = case.source.split_at(case.start);
+        let inner = Case {
+            source: prog.to_string(),
+            mode: case.mode,
+            expect_valid: false,
+            constructs: Vec::new(),
+            start: 0,
+        };
+        let mut v = vec![inner.clone()];
+        let plines = split_keep_eol(prefix);
+        for rem in chunk_removals(&plines) {
+            let p2: String = rem.concat();
+            v.push(Case {
+                source: format!("{p2}{prog}"),
+                start: p2.len(),
+                ..inner.clone()
+            });
+        }
+        // then shrink the program part with the prefix kept
+        for c in shrink(&inner) {
+            v.push(Case {
+                source: format!("{prefix}{}", c.source),
+                mode: c.mode,
+                start: case.start,
+                ..inner.clone()
+            });
+        }
+        return v;
+    }
     let mk = |source: String, mode: PMode| Case {
         source,
         mode,
         expect_valid: false,
         constructs: Vec::new(),
+        start: 0,
     };
     // whole lines
     let lines = split_keep_eol(&case.source);
@@ -870,6 +937,7 @@ pub fn case_size(case: &Case) -> usize {
     case.source.len() * 1000
         + case.source.chars().filter(|c| !c.is_ascii() || *c == '\r').count() * 10
         + (case.mode != PMode::Module) as usize
+        + (case.start > 0) as usize * 50
 }
 
 pub fn case_to_json(case: &Case) -> J {
@@ -885,6 +953,7 @@ pub fn case_to_json(case: &Case) -> J {
             .into(),
         ),
         ("expect_valid", case.expect_valid.into()),
+        ("parse_starts_at", case.start.into()),
     ])
 }
 
@@ -901,6 +970,7 @@ pub fn case_from_json(j: &J) -> Result<Case, String> {
         mode,
         expect_valid: j.get("expect_valid").and_then(J::as_bool).unwrap_or(false),
         constructs: Vec::new(),
+        start: j.get("parse_starts_at").and_then(J::as_u64).unwrap_or(0) as usize,
     })
 }
 
@@ -916,6 +986,9 @@ impl Layer for FoldLayer {
     }
     fn counter_names(&self) -> &'static [&'static str] {
         COUNTER_NAMES
+    }
+    fn chunk_runs(&self) -> u64 {
+        1024
     }
     fn required_probes(&self, config: u64) -> Vec<usize> {
         let mut v = vec![
@@ -938,6 +1011,7 @@ impl Layer for FoldLayer {
         ];
         if config == 1 {
             v.push(C::error_path_conversions as usize);
+            v.push(C::fault_parsed_from_an_offset as usize);
         }
         v
     }
